@@ -2430,6 +2430,11 @@ PURE_FUNCTION_TARGETS = [
     ("C16", "simaple.data.jobs.builtin", "build_skills"),
     ("C16", "simaple.data.jobs.builtin", "_exclude_hexa_skill"),
     ("C16", "simaple.container.simulation", "get_skill_components"),
+    # the rest of what an engine / report is built from (the frame hypothesis of C02's schedule theorem for the build path)
+    ("C02", "simaple.container.simulation", "get_damage_calculator"),
+    ("C02", "simaple.data.jobs.builtin", "get_damage_logic"),
+    ("C02", "simaple.data.jobs.builtin", "get_skill_profile"),
+    ("C02", "simaple.data.jobs.builtin", "get_builtin_strategy"),
 ]
 
 
